@@ -35,6 +35,7 @@ type Env struct {
 	Fields map[*types.Var]Val   // by final selected field
 	Objs   map[types.Object]Val // locals / params
 	Calls  map[string]Val       // by FuncKey of the static callee (argument-insensitive predicate atoms)
+	Prog   *Prog                // set to allow inlining of loop-free repository helpers
 }
 
 // NewEnv creates an empty valuation.
@@ -163,6 +164,39 @@ func evalDepth(f *Fn, e ast.Expr, env *Env, depth int) (Val, bool) {
 		// conversions T(x)
 		if tv, ok := f.Pkg.TypesInfo.Types[x.Fun]; ok && tv.IsType() && len(x.Args) == 1 {
 			return evalDepth(f, x.Args[0], env, depth+1)
+		}
+		// boolean / integer helper of the repository: inline through its exact path conditions (loop-free helpers only)
+		if cal := Callee(f.Pkg, x); cal != nil && env.Prog != nil && depth < 6 {
+			if g := env.Prog.FnOf(cal); g != nil && g.Decl.Body != nil && g.Decl.Type.Results != nil && len(g.Decl.Type.Results.List) == 1 {
+				sub := NewEnv()
+				sub.Prog = env.Prog
+				for k, v := range env.Fields {
+					sub.Fields[k] = v
+				}
+				for k, v := range env.Calls {
+					sub.Calls[k] = v
+				}
+				okArgs := true
+				for i, a := range x.Args {
+					po := ParamObj(g, i)
+					if po == nil {
+						okArgs = false
+						break
+					}
+					v, ok := evalDepth(f, a, env, depth+1)
+					if !ok {
+						okArgs = false
+						break
+					}
+					sub.Objs[po] = v
+				}
+				// receiver fields stay addressed through env.Fields (field-object keyed)
+				if okArgs {
+					if ret, err := Outcome(g, sub); err == nil && len(ret.Results) == 1 {
+						return evalDepth(g, ret.Results[0], sub, depth+1)
+					}
+				}
+			}
 		}
 		return Val{}, false
 	}
